@@ -255,6 +255,26 @@ def check(prop, tier, seed):
         except Exception as e:
             checker_failures.append("dft_conformance did not run: %r" % (e,))
 
+    # ---- lemmas over the contracts that are checked by Lean 4 + Mathlib (thorough tier; they do not depend on /repo)
+    lean_ev = None
+    if entry.get("lean") and tier == "thorough":
+        lf = os.path.join(VERIF, entry["lean"])
+        t0 = time.time()
+        try:
+            lp = subprocess.run(["lean", lf], capture_output=True, text=True, timeout=3000, cwd=_work())
+            out = (lp.stdout or "") + (lp.stderr or "")
+            thms = re.findall(r"'([^']+)' depends on axioms: \[([^\]]*)\]", out)
+            allowed = {"propext", "Classical.choice", "Quot.sound"}
+            bad_ax = [(n_, a_) for n_, a_ in thms if not set(x.strip() for x in a_.split(",") if x.strip()) <= allowed]
+            src = open(lf).read()
+            ok = lp.returncode == 0 and "error" not in out and "sorry" not in out and "sorry" not in src and thms and not bad_ax
+            lean_ev = {"file": entry["lean"], "backend": "lean 4 + Mathlib (kernel-checked)", "theorems": [n_ for n_, _ in thms],
+                       "axioms": sorted(allowed), "accepted": bool(ok), "wall_s": round(time.time() - t0, 1)}
+            if not ok:
+                checker_failures.append("Lean rejected %s: %s" % (entry["lean"], out[-400:]))
+        except Exception as e:
+            checker_failures.append("lean did not run: %r" % (e,))
+
     # ---- refuted obligations: replay
     for o, r in refuted:
         kf = match_finding(findings, prop, name=o.name)
@@ -355,6 +375,7 @@ def check(prop, tier, seed):
         "samples": samples + [{"obligation_names": names_sample}],
         "by_kind": {},
         "bounded": bounded_ev,
+        "lean_lemmas": lean_ev,
         "undecided": undecided[:50],
         "known_findings_hit": known_hits,
         "explanation": entry.get("explanation", ""),
@@ -389,6 +410,8 @@ def check(prop, tier, seed):
     for x in bounded_ev:
         print("bounded stand-in: %d cases (%d distinct non-trivial), %d failing, %.1fs" %
               (x["evaluations"], x["distinct_nontrivial"], x["failures"], x["wall_s"]))
+    if lean_ev:
+        print("lean lemmas over the contracts: %d theorems %s, %.1fs" % (len(lean_ev["theorems"]), "accepted" if lean_ev["accepted"] else "REJECTED", lean_ev["wall_s"]))
     for k in sorted(set(known_hits)):
         print(k)
     if checker_failures:
